@@ -86,3 +86,21 @@ Proof. exact c_dtw_distance_spec. Qed.
 (* without a bound (max_dist = 0, no pruning) nothing is cut *)
 Theorem C03_c_kernel_no_bound_no_cut : forall ced v, bounded (c_bound_sq false ced (Fin 0)) v = v.
 Proof. intros ced v. unfold c_bound_sq, bounded. cbn. destruct v; reflexivity. Qed.
+
+(* use_pruning in the C kernel, end to end: the bound is the value euclidean_distance_squared RETURNS (Gen_ced.v,
+   regenerated too - no oracle left); where the Euclidean distance is a valid upper bound the kernel returns the
+   unpruned specification value. *)
+From DV Require Import CEd.
+From DVGen Require Import Gen_ced.
+
+Theorem C03_c_use_pruning_keeps_value :
+  forall (window p mld : Z) (p1b p1e p2b p2e : nat) (junk : Z -> cost) (f1 f2 : list Z) ce cub idist md,
+  (0 <= window)%Z -> (0 <= p)%Z -> (1 <= length f1)%nat -> (1 <= length f2)%nat ->
+  (p1b < length f1 \/ p2e < length f2)%nat -> (idist =? 1)%Z = false ->
+  (p = 0%Z \/ length f1 = length f2) ->
+  let u := c_to_u (cs_of window p 0 mld (psi4 p1b p1e p2b p2e) SqEuclid) in
+  c_dtw_distance ce (cret_val (fst (c_euclidean_distance_squared f1 (Z.of_nat (length f1)) f2 (Z.of_nat (length f2))))) cub junk
+                 f1 (Z.of_nat (length f1)) f2 (Z.of_nat (length f2)) idist md mld (Fin 0) false (Fin p)
+                 (Z.of_nat p1b) (Z.of_nat p1e) (Z.of_nat p2b) (Z.of_nat p2e) true window =
+  ((if too_long u (scal f1) (scal f2) then RPlain Inf else RSqrt (dtw_value u (scal f1) (scal f2))), true).
+Proof. exact c_dtw_distance_pruned_exact. Qed.
